@@ -84,7 +84,7 @@ def c11_header(t0: int, t1: int, i0: int, i1: int, v0: int, v1: int, s0: int, s1
         "style": St,
     }
     wb = {"survey": [{"type": "text", "name": "q1", "label": "L"}], "settings": [settings]}
-    survey, _w, _js = build_survey(wb, form_name=N)
+    survey, _w, _js = build_survey(wb, form_name=N, prefill=True)
     p = _parts(survey.xml())
     if p is None:
         return False
@@ -381,7 +381,6 @@ def c11_file_stem(sfx: int, has_title: bool, s0: int, s1: int) -> bool:
         B.Path = real
     js = workbook_to_json(workbook_dict=dd, fallback_form_name=dd.fallback_form_name, warnings=[])
     survey = create_survey_element_from_dict(js)
-    shims.s3_prefill_xpath(survey)
     p = _parts(survey.xml())
     if p is None:
         return False
